@@ -70,6 +70,7 @@ PRED = NS_DEFS + r"""
 #define RCNT(x) m_receivers_count[(x)]
 #define DON(r, s) m_donors[(r) * DON_W + (s)]
 #define CNT(r) m_donors_count[(r)]
+#define SAME_D(x, y) ((x) == (y) || (isnan(x) && isnan(y)))  /* "unchanged" for a double cell */
 size_t GR, GS;      /* ghost donor row / slot */
 size_t GX; double GD; /* ghost (node, distance) value for the multiset comparison */
 """
@@ -124,7 +125,7 @@ def routed(nb, finite):
 
 def ghost_requires(nb):
     return r"""
-__CPROVER_requires(G < gsize && GN_cnt <= FSL_NBMAX && GR < gsize)
+__CPROVER_requires(G < gsize && GN_cnt <= FSL_NBMAX && GR < gsize && GS < DON_W)
 __CPROVER_requires(%s)
 """ % conj("%k < GN_cnt ==> (GN[%k].idx < gsize && GN[%k].distance > 0 && GN[%k].distance < INFINITY)", nb)
 
@@ -149,7 +150,7 @@ def common_pre(nb, restricted):
 def make_step(nb, restricted, finite):
     return Unit(
         name="mrouter_step", file=ROUTER_H,
-        anchor=r"class flow_operator_impl<FG, multi_flow_router, flow_graph_fixed_array_tag>.*?void apply\(graph_impl_type& graph_impl,\s*data_array_type& elevation,\s*thread_pool_type& /\*pool\*/\)",
+        anchor=r"class flow_operator_impl<FG, multi_flow_router, flow_graph_fixed_array_tag>.*?void apply\(graph_impl_type& graph_impl,\s*data_array_type& elevation,\s*thread_pool_type&\s*\)",
         inner=r"for \(auto i : grid\.nodes_indices\(\)\)\s*\{",
         sig="void mrouter_step(size_t i, %s)" % PARAMS,
         pre=common_pre(nb, restricted), defs=DEFS, body_prefix=STEP_LOCALS,
@@ -166,7 +167,7 @@ __CPROVER_ensures(CNT(GR) >= __CPROVER_old(CNT(GR)))
 __CPROVER_ensures((GS < __CPROVER_old(CNT(GR)) && GS < DON_W) ==> DON(GR, GS) == __CPROVER_old(DON(GR, GS)))
 __CPROVER_ensures((__CPROVER_old(CNT(GR)) <= GS && GS < CNT(GR) && GS < DON_W) ==> (DON(GR, GS) == i && !TERMINAL(i) && %(INREC)s))
 """ % dict(ROUTED=routed(nb, finite),
-           SAME=conj("REC(G, %k) == __CPROVER_old(REC(G, %k)) && DIST(G, %k) == __CPROVER_old(DIST(G, %k)) && (WGT(G, %k) == __CPROVER_old(WGT(G, %k)) || (isnan(WGT(G, %k)) && isnan(__CPROVER_old(WGT(G, %k)))))", nb),
+           SAME=conj("REC(G, %k) == __CPROVER_old(REC(G, %k)) && SAME_D(DIST(G, %k), __CPROVER_old(DIST(G, %k))) && SAME_D(WGT(G, %k), __CPROVER_old(WGT(G, %k)))", nb),
            INREC=disj("%k < RCNT(i) && REC(i, %k) == GR", nb)),
     )
 
@@ -176,7 +177,7 @@ def make_outer(nb, finite):
     sound = "((GS < CNT(GR) && GS < DON_W) ==> (DON(GR, GS) < %s && " + inrec_don + "))"
     return Unit(
         name="mrouter", file=ROUTER_H,
-        anchor=r"class flow_operator_impl<FG, multi_flow_router, flow_graph_fixed_array_tag>.*?void apply\(graph_impl_type& graph_impl,\s*data_array_type& elevation,\s*thread_pool_type& /\*pool\*/\)",
+        anchor=r"class flow_operator_impl<FG, multi_flow_router, flow_graph_fixed_array_tag>.*?void apply\(graph_impl_type& graph_impl,\s*data_array_type& elevation,\s*thread_pool_type&\s*\)",
         sig="void mrouter(%s)" % PARAMS,
         defs=DEFS,
         rules=[R(r"using neighbors_type = [^;]*;", "", 1),
